@@ -1,7 +1,7 @@
 (* C06 - the written file says what the model says.
    Statements only; proofs are in Proofs/Emit.v. *)
 From Coq Require Import List Bool ZArith NArith.
-From PC Require Import Base.Atoms Base.Xml Model.Emit Proofs.Emit.
+From PC Require Import Base.Outcome Base.Atoms Base.Xml Model.Emit Proofs.Emit Model.Strips Model.SaveOnto Proofs.SaveOnto.
 Import ListNotations.
 
 (* per class: an independent reading of the emitted element recovers the content *)
@@ -77,6 +77,17 @@ Theorem C06_optional_children_others : forall t value after kids t', t' <> t ->
   map xtext (filter (is_tag ns t') (correct_val t value after kids)) = map xtext (filter (is_tag ns t') kids).
 Proof. exact optional_child_others. Qed.
 Print Assumptions C06_optional_children_others.
+
+(* a triangle set loaded from <tristrips>/<trifans> (its index is Model/Strips.load_expand of the <p>
+   streams, C11's model of the loader) is written by TriangleSet._recreateXmlNode as <triangles> with
+   the same material and inputs, the number of triangles, and one <p> holding the expanded index *)
+Theorem C06_recreated_triangles : forall kd max_offset (ps : list toks) (ts : list (tri toks)) material inputs,
+  load_expand kd max_offset ps = Ok ts ->
+  exists p, read_prim (emit_prim (recreate_prim material inputs ts)) = Some p /\
+            p_kind p = KTriangles /\ p_ps p = [flatten_tris ts] /\ p_count p = Z.of_nat (length ts) /\
+            p_inputs p = inputs /\ p_material p = material /\ p_vcount p = None.
+Proof. exact recreated_triangles. Qed.
+Print Assumptions C06_recreated_triangles.
 
 (* the managed libraries of the file hold exactly the emissions of the model's objects, in order *)
 Theorem C06_managed_libraries_exact : forall arr d,
